@@ -59,7 +59,7 @@ def documented_columns():
 class DiagMonitor(solvex.Monitor):
     def on_end(self, ex):
         if ex.outcome != "returned":
-            if ex.outcome == "raised":
+            if ex.outcome == "raised" and not mon.raise_is_allowed(ex):
                 ex.violate("returns", "solve raised %s: %s" % (type(ex.exc).__name__, ex.exc))
             return
         s = ex.soln
@@ -198,6 +198,10 @@ def _configs(tier, salts):
                         if tier == "thorough" and salt == 0 and maxfun == 20 and prob == "nzr" and not bounds and mode in ("default", "soft", "hard", "growing"):
                             depth, letters = 2, ["x0.3", "x3", "x1e3"]
                         out.append((cfg, {"depth": depth, "letters": letters}))
+        if salt == 0 or tier == "thorough":
+            for name, cfg in cfgs.broad_cfgs(salt=salt, budgets=(12, 40, 90), extra_up=DIAG, reg_budgets=(8,)):
+                depth = 1 if (tier == "thorough" and cfg.get("memo", True) and cfg["maxfun"] == 40 and "reg" not in cfg["broad_flags"]) else 0
+                out.append((dict(cfg, tag_mode=cfg["tag_mode"]), {"depth": depth, "letters": ["x0.3", "x3", "x1e3"]}))
     return out
 
 
